@@ -11,7 +11,7 @@ from __future__ import annotations
 import ast
 
 from ..core import UNKNOWN, AnalysisError, FuncInfo, call_name, get_arg, norm, walk_no_nested
-from ..paths import calls, cfg_of, node_of, structural_guards
+from ..paths import canon, calls, cfg_of, node_of, structural_guards
 from .c03 import XML_PART_CONSTS
 
 EXPLANATION = (
@@ -86,8 +86,10 @@ def r04a(ctx):
         ctx.report("R04a", f, f.node, "no writestr(ODF_MANIFEST)", "the zip writer no longer writes the manifest explicitly last")
 
 
-def _is_container_recv(c: ast.Call) -> bool:
-    return isinstance(c.func, ast.Attribute) and "container" in ast.unparse(c.func.value)
+def _is_container_recv(c: ast.Call, f: FuncInfo | None = None) -> bool:
+    if not isinstance(c.func, ast.Attribute):
+        return False
+    return "container" in (canon(f, c.func.value) if f is not None else ast.unparse(c.func.value))
 
 
 def _xml_part_path(repo, f: FuncInfo, e: ast.expr) -> bool:
@@ -109,7 +111,7 @@ def r04b(ctx):
         cfg = None
         for c in calls(f, lambda c: call_name(c) in ("set_part", "del_part") and c.args):
             recv_doc = isinstance(c.func, ast.Attribute) and isinstance(c.func.value, ast.Name) and c.func.value.id == "self" and f.cls is doc
-            if not (_is_container_recv(c) or recv_doc):
+            if not (_is_container_recv(c, f) or recv_doc):
                 continue
             p = c.args[0]
             if f.ident in EXEMPT:
@@ -174,7 +176,7 @@ def r04b(ctx):
     f = repo.func("Document.save")
     cfg = cfg_of(f)
     chk = calls(f, lambda c: call_name(c) == "_check_manifest_rdf")
-    sv = calls(f, lambda c: call_name(c) == "save" and _is_container_recv(c))
+    sv = calls(f, lambda c: call_name(c) == "save" and _is_container_recv(c, f))
     flush = [n for n in walk_no_nested(f.node) if isinstance(n, ast.For) and "xmlparts" in ast.unparse(n.iter)]
     ok = bool(chk) and bool(sv) and all(cfg.dominates(node_of(cfg, chk[0]), node_of(cfg, x)) for x in flush + sv)
     ctx.instance("R04b", f"{f.file}:{f.ident}", "_check_manifest_rdf() dominates the flush loops and container.save", ok=ok, nontrivial=True)
